@@ -898,6 +898,10 @@ pub struct PipeCase {
     pub all_k_limit: u32,
     /// otherwise: fixed buffer-size related k plus these fractions of len
     pub k_seeds: Vec<u32>,
+    /// search every file through `--pre cat` (the output then reaches the
+    /// printer through the preprocessor's reader)
+    #[serde(default)]
+    pub pre: bool,
 }
 
 const BUFFER_KS: [usize; 24] = [
@@ -944,7 +948,11 @@ pub fn check_pipe(c: &PipeCase) -> Verdict {
     build_tree(t, &root, &all, false);
     let any = if c.mode.is_files() { !t.files.is_empty() } else { t.files.iter().any(|f| f.nmatch > 0) };
     let want = expected_status(c.mode, any, false);
-    let mk = || base_rg(&root, c.mode, c.threads, false).arg(".").timeout(Duration::from_secs(10));
+    let mk = || {
+        let rg = base_rg(&root, c.mode, c.threads, false);
+        let rg = if c.pre && !c.mode.is_files() { rg.arg("--pre").arg("cat") } else { rg };
+        rg.arg(".").timeout(Duration::from_secs(10))
+    };
     let case_json = || serde_json::to_string(c).unwrap_or_default();
 
     // the uninterrupted run fixes the output length
@@ -1024,6 +1032,8 @@ pub fn check_pipe(c: &PipeCase) -> Verdict {
     info.class_if(len > 8192 && c.threads == 4, "parallel_output_over_8KiB");
     info.class_if(len > 65536 && c.mode.is_files(), "files_mode_output_over_64KiB");
     info.class_if(!any, "nothing_to_print");
+    info.class_if(c.pre && !c.mode.is_files(), "through_preprocessor");
+    info.class_if(c.pre && !c.mode.is_files() && len > 8192 && c.threads == 1, "serial_preprocessor_output_over_8KiB");
     info.class_if(unconfirmed_timeouts > 0, "timeout_not_confirmed_by_second_run");
     info.class_if(ks.len() >= 60, "k_60_or_more");
     Verdict::Pass(info)
@@ -1115,7 +1125,9 @@ pub fn gen_pipe(t: &mut Tape, all_k_limit: u32) -> PipeCase {
     for _ in 0..48 {
         k_seeds.push(t.raw());
     }
-    PipeCase { tree, mode, threads, all_k_limit, k_seeds }
+    // (drawn last so that the rest of the case does not depend on it)
+    let pre = t.chance(1, 4);
+    PipeCase { tree, mode, threads, all_k_limit, k_seeds, pre }
 }
 
 // ------------------------------------------------------- shrink budget ---
